@@ -426,6 +426,10 @@ func ReadSortIndex(segkey string, cname string, sortMode SortMode, reverse bool,
 
 	lines := make([]Line, 0)
 
+	if len(metadata.valueOffsets) == 0 {
+		return lines, &Checkpoint{eof: true}, nil
+	}
+
 	if reverse && fromCheckpoint == nil {
 		fromCheckpoint = &Checkpoint{
 			lineNum:     int64(len(metadata.valueOffsets)) - 1,
@@ -435,6 +439,10 @@ func ReadSortIndex(segkey string, cname string, sortMode SortMode, reverse bool,
 
 	// Skip to the checkpoint.
 	if fromCheckpoint != nil {
+		if fromCheckpoint.lineNum < 0 || fromCheckpoint.lineNum >= int64(len(metadata.valueOffsets)) {
+			return nil, nil, fmt.Errorf("ReadSortIndex: checkpoint line %v is outside the %v lines of the file",
+				fromCheckpoint.lineNum, len(metadata.valueOffsets))
+		}
 		offsetToStartOfLine := metadata.valueOffsets[fromCheckpoint.lineNum]
 		_, err = file.Seek(int64(offsetToStartOfLine), io.SeekStart)
 		if err != nil {
@@ -653,6 +661,16 @@ func readMetadata(file *os.File) (*metadata, error) {
 	err = binary.Read(file, binary.LittleEndian, &totalUniqueColValues)
 	if err != nil {
 		return nil, fmt.Errorf("readMetadata: failed reading number of unique column values: %v", err)
+	}
+
+	// The count comes from the file; every value has an 8 byte offset in the file.
+	fileStat, err := file.Stat()
+	if err != nil {
+		return nil, fmt.Errorf("readMetadata: failed to get file stat: %v", err)
+	}
+	if totalUniqueColValues > uint64(fileStat.Size())/8 {
+		return nil, fmt.Errorf("readMetadata: %v unique column values do not fit a file of %v bytes",
+			totalUniqueColValues, fileStat.Size())
 	}
 
 	meta.valueOffsets = make([]uint64, totalUniqueColValues)
